@@ -195,6 +195,9 @@ func Run(raw json.RawMessage) (any, error) {
 	if err := json.Unmarshal(raw, &c); err != nil {
 		return nil, err
 	}
+	if c.T == "row" {
+		return runRow(c)
+	}
 	typ, val, q, err := mkType(c)
 	if err != nil {
 		return nil, err
@@ -408,6 +411,56 @@ func normDecimal(s string) string {
 		s = "-" + s
 	}
 	return s
+}
+
+// runRow: an ENUM(n) column followed by an INT column. The cells are serialized with the real serializers and laid out
+// one after the other, as serializeRowToBinlogBytes lays out the non-NULL columns of a row; the vitess row decoder then
+// walks the row with the emitted metadata: the second cell is read where the first one ends ACCORDING TO THE METADATA.
+func runRow(c Case) (any, error) {
+	ctx := sql.NewEmptyContext()
+	var o Obs
+	o.Data = []int{}
+	ec := c
+	ec.T = "enum"
+	et, ev, eq, err := mkType(ec)
+	if err != nil {
+		return nil, err
+	}
+	d1, bt1, m1, err := binlogreplication.VerifSerialize(ctx, et, ev)
+	if err != nil {
+		o.Err = err.Error()
+		return o, nil
+	}
+	var z int64
+	fmt.Sscan(c.Dec, &z)
+	d2, bt2, m2, err := binlogreplication.VerifSerialize(ctx, gmstypes.Int32, z)
+	if err != nil {
+		o.Err = err.Error()
+		return o, nil
+	}
+	row := append(append([]byte{}, d1...), d2...)
+	for _, b := range row {
+		o.Data = append(o.Data, int(b))
+	}
+	o.Typ, o.Meta = int(bt1), int(m1)
+	buf := append(append([]byte{}, row...), 0xEE, 0xEE, 0xEE, 0xEE, 0xEE, 0xEE, 0xEE, 0xEE)
+	v1, n1, derr := mysql.CellValue(buf, 0, bt1, m1, eq)
+	if derr != nil {
+		o.DecErr = derr.Error()
+		return o, nil
+	}
+	v2, n2, derr := mysql.CellValue(buf, n1, bt2, m2, querypb.Type_INT32)
+	if derr != nil {
+		o.DecErr = derr.Error()
+		return o, nil
+	}
+	o.Consumed = n1 + n2
+	o.Decoded = valueText(v1) + "," + valueText(v2)
+	for _, b := range []byte(o.Decoded) {
+		o.DecB = append(o.DecB, int(b))
+	}
+	o.Agree = o.Decoded == string(toBytes(c.Expect)) && n1+n2 == len(row)
+	return o, nil
 }
 
 func valueText(v sqltypes.Value) string {
